@@ -92,11 +92,14 @@ theorem c09_unknown_or_foreign_rejected (s : RegState) (now wall id key n : Nat)
 
 /-- the byte limits of moniker, name and genesis hash in the model are the ones the source compares with -/
 theorem c09_limits_from_source :
-    ["wrkchain.msgs.Moniker.>", "wrkchain.msg_server.Moniker.>", "beacon.msgs.Moniker.>", "beacon.msg_server.Moniker.>"].all
-      (fun k => decide (AL.find? Facts.limits k = some maxMonikerLen)) = true ∧
-    ["wrkchain.msgs.Name.>", "wrkchain.msg_server.Name.>", "beacon.msgs.Name.>", "beacon.msg_server.Name.>"].all
-      (fun k => decide (AL.find? Facts.limits k = some maxNameLen)) = true ∧
-    AL.find? Facts.limits "wrkchain.msgs.GenesisHash.>" = some maxHashLen := by decide
+    ["wrkchain.msgs.Moniker.>", "beacon.msgs.Moniker.>"].all (fun k => decide (AL.find? Facts.limits k = some maxMonikerLen)) = true ∧
+    ["wrkchain.msgs.Name.>", "beacon.msgs.Name.>"].all (fun k => decide (AL.find? Facts.limits k = some maxNameLen)) = true ∧
+    AL.find? Facts.limits "wrkchain.msgs.GenesisHash.>" = some maxHashLen ∧
+    -- where the message servers repeat a `ValidateBasic` bound literally it is the same number
+    ["wrkchain.msg_server.Moniker.>", "beacon.msg_server.Moniker.>"].all
+      (fun k => decide (AL.find? Facts.limits k = none ∨ AL.find? Facts.limits k = some maxMonikerLen)) = true ∧
+    ["wrkchain.msg_server.Name.>", "beacon.msg_server.Name.>"].all
+      (fun k => decide (AL.find? Facts.limits k = none ∨ AL.find? Facts.limits k = some maxNameLen)) = true := by decide
 
 end C09
 end Mainchain
